@@ -34,6 +34,11 @@ def units(tier):
     us.append(ground_unit("tables.naming", tablecheck.naming_lemmas))
     us.append(ground_unit("tables.WF", tablecheck.wf_lemmas))
     us.append(ground_unit("tables.field_entries", tablecheck.field_entry_lemmas))
+    # 'the payload obtained by laying those fields out in definition order': the definition is the standard's layout (pinned) - a
+    # definition whose repeat key, group content or field widths depart from it decodes a conformant payload to wrong values
+    us.append(ground_unit("tables.lengths", tablecheck.length_lemmas))
+    us.append(ground_unit("tables.siblings", tablecheck.sibling_lemmas))
+    us.append(ground_unit("tables.msm", tablecheck.msm_table_lemmas))
     return us
 
 
